@@ -26,7 +26,7 @@ use crate::verif_model::Arc;
 type R = Result<Variable, ExecError>;
 
 fn tag(id: i64, l: Variable, r: Variable) -> Variable {
-    Variable::Tuple(Arc::from(vec![Variable::Int(id), l, r]))
+    Variable::Tuple(Arc::from(crate::vv![Variable::Int(id), l, r]))
 }
 fn int_in(v: &Variable, lo: i64, hi: i64) -> bool {
     matches!(v, Variable::Int(x) if *x >= lo && *x <= hi)
